@@ -1,12 +1,12 @@
-\* part P: three PEX overlays (1, 2 in swarm 1; 3 in swarm 2), two seeder keys, bounded deque
+\* part P (quick tier): two overlays of one swarm, two seeder keys: expiry order
 SPECIFICATION SpecP
 CONSTANTS
-  T0 = 10  MaxTime = 13
+  T0 = 10  MaxTime = 12
   Peers = {1}  Seeders = {1}  Circuits = {1}
   MaxIpAge = 2  MinDht = 3  MaxDht = 1  Interval = 1  ConnLimit = 1  MaxBytes = 0  MaxResult = 1
   SeedingChoices = {FALSE}
   DupAdd = FALSE  ExpireUsed = FALSE  NoGate = FALSE  ForgetHistory = FALSE
-  Nodes = {1, 2, 3}  NSwarmA = 2  PSeeders = {1, 2}  PexAge = 1  PexCap = 2  SendCap = 10
+  Nodes = {1, 2}  NSwarmA = 2  PSeeders = {1, 2}  PexAge = 1  PexCap = 2  SendCap = 10
   Unload = FALSE  ExpireNewest = FALSE  CrossSwarm = FALSE  MaxMsgs = 1  MaxAnn = 2
 CONSTRAINT PConstraint
 INVARIANT TypeOK
